@@ -16,12 +16,14 @@ import (
 	"verifharness/geometry"
 	"verifharness/metadata"
 	"verifharness/piecestore"
+	"verifharness/sched"
 	"verifharness/trackerb"
 	"verifharness/wire"
 )
 
 var bindings = map[string]func(in []byte) any{
 	"piecestore": piecestore.Replay,
+	"sched":      sched.Replay,
 	"tracker":    trackerb.Handle,
 	"geometry":   geometry.Handle,
 	"metadata":   metadata.Replay,
